@@ -212,6 +212,9 @@ class PKESessionKeyV3(PKESessionKey):
         if self.ct is not None:
             sk.ct = copy.copy(self.ct)
 
+        if self._opaque_ct is not None:
+            sk._opaque_ct = self._opaque_ct[:]
+
         return sk
 
     def decrypt_sk(self, pk):
@@ -1010,6 +1013,9 @@ class CompressedData(Packet):
         super(CompressedData, self).__init__()
         self._calg = None
         self.packets = []
+        # compressed octets as received, and what they decompressed to
+        self._received = None
+        self._received_plain = None
 
     def __bytearray__(self):
         _bytes = bytearray()
@@ -1019,6 +1025,13 @@ class CompressedData(Packet):
         _pb = bytearray()
         for pkt in self.packets:
             _pb += pkt.__bytearray__()
+
+        if self._received is not None and _pb == self._received_plain:
+            # nothing inside has changed: recompressing rarely reproduces another implementation's octets
+            # (level, window, flushing), and the header length was parsed for these ones
+            _bytes += self._received
+            return _bytes
+
         _bytes += self.calg.compress(bytes(_pb))
 
         return _bytes
@@ -1028,7 +1041,9 @@ class CompressedData(Packet):
         self.calg = packet[0]
         del packet[0]
 
-        cdata = bytearray(self.calg.decompress(packet[:self.header.length - 1]))
+        self._received = packet[:self.header.length - 1]
+        cdata = bytearray(self.calg.decompress(self._received))
+        self._received_plain = cdata[:]
         del packet[:self.header.length - 1]
 
         while len(cdata) > 0:
